@@ -3,6 +3,7 @@
 // independent implementation of rounding.txt: exact matrix product rounded half-up per row, projective quotient,
 // nearest = floor(x - e), bilinear with 7-bit weights, (separable) convolution alignment, four repeat modes.
 #include "scene.hpp"
+#include "ref_combine.hpp"
 using namespace vf;
 using namespace img;
 using namespace scene;
@@ -183,6 +184,58 @@ static SCase gen_case() {
   s.repeat = (int)R(0, 3);
   sc.sx = (int)R(-2, 3);
   sc.sy = (int)R(-2, 3);
+  if (coin(6)) {
+    // a very wide source sampled with a large step, starting far left of the image: position and bounds arithmetic with
+    // sums beyond 2^31 units, every sample position still inside the +-32767 pixel range
+    sc.w = (int)R(8, 90);
+    sc.h = (int)R(1, 2);
+    sc.dst.bits.w = sc.w;
+    sc.dst.bits.h = sc.h;
+    sc.dst.has_clip = 0;
+    s.bits.fmt = fmt_index(pick<pixman_format_code_t>({PIXMAN_a8r8g8b8, PIXMAN_x8r8g8b8, PIXMAN_r5g6b5, PIXMAN_a8}));
+    s.bits.w = pick<int>({20000, 24000, 30000, 32000});
+    s.bits.h = (int)R(1, 2);
+    int64_t span = R(14000, 30000);
+    s.m = {std::min<int64_t>(2000 * 65536, std::max<int64_t>(65536, span * 65536 / (sc.w + 4))), 0, 0, 0, 65536, R(0, 65535), 0, 0, 65536};
+    sc.sx = (int)R(0, 3);
+    sc.sy = 0;
+    s.m[2] = -R(span / 4, 3 * span / 4) * 65536 + R(0, 65535);
+    s.filter = pickw({5, 5});
+    s.repeat = pickw({4, 1, 4, 1});
+  }
+  if (coin(15)) {
+    // through an untransformed a8 mask with runs of 0x00 and 0xff, with SRC or OVER: scanline code that skips groups of
+    // masked-out pixels must keep its sampling position and interpolation weights in step
+    sc.has_mask = 1;
+    sc.mask = SImg();
+    sc.mask.kind = 0;
+    sc.mask.bits = gen_bits(fmt_index(PIXMAN_a8), 1, 1);
+    sc.mask.bits.w = sc.w + (int)R(0, 5);
+    sc.mask.bits.h = sc.h + (int)R(0, 2);
+    sc.mask.bits.fill = coin(70) ? FILL_RUNS : FILL_RANDOM;
+    sc.mx = (int)R(0, sc.mask.bits.w - sc.w);
+    sc.my = (int)R(0, sc.mask.bits.h - sc.h);
+    sc.op = coin(60) ? PIXMAN_OP_OVER : PIXMAN_OP_SRC;
+    if (coin(60)) {
+      // the shapes that have scaled fast paths with a mask: scale only, 8888/565
+      s.bits.fmt = fmt_index(pick<pixman_format_code_t>({PIXMAN_a8r8g8b8, PIXMAN_a8r8g8b8, PIXMAN_x8r8g8b8, PIXMAN_r5g6b5}));
+      if (s.bits.w < 20000) {
+        sc.w = (int)R(8, 70);
+        sc.dst.bits.w = sc.w;
+        sc.mask.bits.w = sc.w + (int)R(0, 5);
+        sc.mx = (int)R(0, sc.mask.bits.w - sc.w);
+        sc.dst.has_clip = 0;
+        s.m = gen_transform(2, 20, 20);
+        s.m[0] = std::llabs(s.m[0]);
+        s.m[4] = std::llabs(s.m[4]);
+        s.bits.w = std::max<int>(2, (int)((int64_t)(sc.w + 6) * s.m[0] / 65536) + (int)R(0, 4));
+        s.bits.h = std::max<int>(1, (int)((int64_t)(sc.h + 3) * s.m[4] / 65536) + (int)R(0, 3));
+        s.bits.w = std::min(s.bits.w, 600);
+        s.bits.h = std::min(s.bits.h, 30);
+        s.filter = pickw({4, 6});
+      }
+    }
+  }
   return c;
 }
 
@@ -282,13 +335,22 @@ static Verdict run_case(const SCase &c) {
       if (!rr::contains(R, i, j)) continue;
       const Pos &p = pos[(size_t)j * sc.w + i];
       uint32_t got = raw_get(b.d.bits->rowp(j), 32, i);
-      uint32_t want = ref.sample(p.x, p.y);
+      // what reaches the destination: the fetched value itself (SRC, no mask), or the fetched value IN the mask, combined
+      // with the old destination by the exact 8-bit rule (all formats involved are narrow)
+      auto final_px = [&](uint32_t fetched) -> uint32_t {
+        if (!sc.has_mask) return fetched;
+        uint32_t ma = raw_get(b.m.bits->rowp(sc.my + j), 8, sc.mx + i);
+        const uint8_t *old_row = b.d.bits->before.data() + (b.d.bits->rowp(j) - b.d.bits->buf.p);
+        uint32_t dold = raw_get(old_row, 32, i);
+        return rc8::combine(sc.op, fetched, ma << 24, 1, dold);
+      };
+      uint32_t want = final_px(ref.sample(p.x, p.y));
       bool ok = got == want;
       uint32_t want2 = want;
       if (!ok && p.has2) {
         // the documentation does not fix the rounding of the projective quotient: any of the four combinations
         for (int k = 1; k < 4 && !ok; k++) {
-          want2 = ref.sample(k & 1 ? p.x2 : p.x, k & 2 ? p.y2 : p.y);
+          want2 = final_px(ref.sample(k & 1 ? p.x2 : p.x, k & 2 ? p.y2 : p.y));
           ok = got == want2;
         }
       }
@@ -299,7 +361,7 @@ static Verdict run_case(const SCase &c) {
         if (!affine && (p.x < 0 || p.y < 0 || projective_w_nonpos)) known = "S2";
         v.known = known;
       }
-      distinct_src.insert(want);
+      distinct_src.insert(ref.sample(p.x, p.y));
       int64_t fx = p.x & 0xffff, fy = p.y & 0xffff;
       if (fx <= 2 || fx >= 65534 || fy <= 2 || fy >= 65534 || std::llabs(fx - 32768) <= 2 || std::llabs(fy - 32768) <= 2) near_boundary = true;
       if (p.x < 0 || p.y < 0 || p.x >= ((int64_t)s.bits.w << 16) || p.y >= ((int64_t)s.bits.h << 16)) outside = true;
@@ -309,6 +371,8 @@ static Verdict run_case(const SCase &c) {
   v.label(fmt("filter%d", s.filter));
   v.label(fmt("repeat%d", s.repeat));
   if (!affine) v.label("projective");
+  if (sc.has_mask) v.label(sc.op == PIXMAN_OP_OVER ? "a8_mask_over" : "a8_mask_src");
+  if (s.bits.w >= 20000) v.label("very_wide_source");
   if (near_boundary) v.label("sample_on_pixel_boundary");
   if (outside) v.label("samples_outside_source");
   return v;
